@@ -41,6 +41,22 @@ impl Shape {
             Shape::C { inner, .. } => inner.buf_len(),
         }
     }
+    /// buffer index (in pixels) of every pixel of the view, row-major - computed from the shape alone
+    pub fn positions(&self) -> Vec<usize> {
+        let (off, bw, _, _) = self.base();
+        let (mut l, mut t) = (0usize, 0usize);
+        for c in self.crops() {
+            l += c.0 as usize;
+            t += c.1 as usize;
+        }
+        let mut v = Vec::new();
+        for y in 0..self.height() as usize {
+            for x in 0..self.width() as usize {
+                v.push(off + (y + t) * bw as usize + x + l);
+            }
+        }
+        v
+    }
     fn base(&self) -> (usize, u32, u32, usize) {
         match self {
             Shape::T { off, w, h, len } => (*off, *w, *h, *len),
